@@ -28,6 +28,11 @@ type planSeed struct {
 	// TruncFrom: prefix lengths TruncFrom..len-1 are run from this seed (shorter prefixes are
 	// prefixes of an earlier seed of the same decoder and run there); -1: none.
 	TruncFrom int  `json:"trunc_from"`
+	// Own: this shard runs the seed's control and truncations (and everything of an unstable seed).
+	// The dense and protobuf tree families of a stable seed are dealt to ALL shards in blocks of
+	// blockSize consecutive cases, so that one heavy seed does not make one shard the last to finish.
+	Own       bool `json:"own"`
+	Unstable  bool `json:"unstable"`
 	Dense     bool `json:"dense"`    // families subst and field
 	PB        bool `json:"pb"`       // protobuf tree, single mutations
 	PBPairs   bool `json:"pb_pairs"` // protobuf tree, pairs
@@ -69,6 +74,9 @@ func groupOf(s *cat.Seed) string {
 	}
 	return s.Kind
 }
+
+// blockSize consecutive cases of a seed's dense / tree families go to the same shard.
+const blockSize = 16
 
 // tier parameters
 type tierCfg struct {
@@ -172,6 +180,11 @@ func buildPlan(tier string, shard, nshards int) *plan {
 	}
 	for _, g := range gkeys {
 		seenLen := map[int]bool{}
+		for _, i := range groups[g] {
+			if seeds[i].Rep { // dense seeds of one decoder and message type all have different lengths
+				seenLen[len(seeds[i].Bytes)] = true
+			}
+		}
 		var cand []int
 		for _, i := range groups[g] {
 			if l := len(seeds[i].Bytes); !seenLen[l] {
@@ -224,7 +237,9 @@ func buildPlan(tier string, shard, nshards int) *plan {
 		vals[v.Name] = v
 	}
 
-	// participating seeds with a work estimate
+	// Participating seeds. Truncations (and unstable seeds as a whole) are dealt to the shards
+	// seed by seed, longest processing time first on an estimate of the work (deterministic);
+	// every shard gets every stable dense seed and runs its blocks of their cases.
 	type item struct {
 		ps   planSeed
 		cost float64
@@ -236,12 +251,9 @@ func buildPlan(tier string, shard, nshards int) *plan {
 		if !hasT && !dense[i] {
 			continue
 		}
-		ps := planSeed{Idx: i, Name: s.Name, Kind: s.Kind, Rep: s.Rep, Bytes: s.Bytes, TruncFrom: -1}
-		// work estimate in seconds: a decode costs about 2 us plus 20 ns per byte; on a tree
-		// whose address map decoders allocate what a hostile length announces, each 4 byte
-		// field of a native seed costs about three worker deaths of 4 s each
-		per := 2e-6 + 20e-9*float64(len(s.Bytes))
-		cost := 0.0
+		ps := planSeed{Idx: i, Name: s.Name, Kind: s.Kind, Rep: s.Rep, Bytes: s.Bytes, TruncFrom: -1, Unstable: s.Unstable}
+		per := 2e-6 + 20e-9*float64(len(s.Bytes)) // a decode costs about 2 us plus 20 ns per byte
+		cost := per
 		if hasT {
 			ps.TruncFrom = tf
 			p.TruncSeeds++
@@ -255,24 +267,16 @@ func buildPlan(tier string, shard, nshards int) *plan {
 				p.Notes = append(p.Notes, fmt.Sprintf("seed %s: the encoder's writes could not be recorded (unstable encoding); no field family for it", s.Name))
 			}
 			ps.Fields = f
-			cost += (9*float64(len(s.Bytes)) + 30*float64(len(f))) * per
-			if s.Kind != "protobuf-envelope" {
-				for _, fl := range f {
-					if fl[1] == 4 {
-						cost += 12
-					}
-				}
-			}
 			if s.Kind == "protobuf-envelope" && (s.Rep || cfg.pbAllDense) {
 				ps.PB = true
 				p.PBSeeds++
-				n := pbCount(s.Bytes)
-				cost += float64(n) * per * 3
-				if s.Rep && cfg.pairMax > 0 && n <= cfg.pairMax {
+				if n := pbCount(s.Bytes); s.Rep && cfg.pairMax > 0 && n <= cfg.pairMax {
 					ps.PBPairs = true
 					p.PBPairSeeds++
-					cost += float64(n) * float64(n) / 2 * per * 3
 				}
+			}
+			if s.Unstable {
+				cost += (9*float64(len(s.Bytes)) + 30*float64(len(f))) * per
 			}
 		}
 		items = append(items, item{ps, cost})
@@ -292,7 +296,8 @@ func buildPlan(tier string, shard, nshards int) *plan {
 			}
 		}
 		load[best] += it.cost
-		if best == shard {
+		it.ps.Own = best == shard
+		if it.ps.Own || (it.ps.Dense && !it.ps.Unstable) {
 			p.Seeds = append(p.Seeds, it.ps)
 		}
 	}
@@ -325,7 +330,8 @@ var fieldLimits = []int64{32, 128, 1024}
 // fieldValues returns the distinct byte strings written over a field of width w whose current
 // content is cur: every value of {0, 1, limit-1, limit, limit+1 for the documented limits,
 // 0x7fff, 0xffff, -1, MinInt32, MaxInt32, (8 bytes: MinInt64, MaxInt64), current-1, current+1}
-// in little-endian (perunio) and in big-endian (AuthResponseMsg, protobuf frame) byte order.
+// in little-endian (perunio) and in big-endian (AuthResponseMsg, protobuf frame) byte order
+// (for 4 and 8 byte fields only in the order in which the field holds a small number, if that is unambiguous).
 func fieldValues(cur []byte, limits []int64) [][]byte {
 	w := len(cur)
 	var le, be uint64
@@ -362,15 +368,49 @@ func fieldValues(cur []byte, limits []int64) [][]byte {
 		binary.LittleEndian.PutUint64(full[:], v)
 		return append([]byte{}, full[:w]...)
 	}
-	for _, v := range vals {
-		add(enc(uint64(v), false))
-		add(enc(uint64(v), true))
+	// Byte order: both, unless the field is 4 or 8 bytes wide and its current content reads as a
+	// small number (< 65536) in exactly one order - then that is the field's order, and the
+	// other order would only produce more arbitrary huge values like MaxInt32.
+	useLE, useBE := true, true
+	if w >= 4 && le != be {
+		if le < 65536 && be >= 65536 {
+			useBE = false
+		} else if be < 65536 && le >= 65536 {
+			useLE = false
+		}
 	}
-	add(enc(le-1, false))
-	add(enc(le+1, false))
-	add(enc(be-1, true))
-	add(enc(be+1, true))
+	for _, v := range vals {
+		if useLE {
+			add(enc(uint64(v), false))
+		}
+		if useBE {
+			add(enc(uint64(v), true))
+		}
+	}
+	if useLE {
+		add(enc(le-1, false))
+		add(enc(le+1, false))
+	}
+	if useBE {
+		add(enc(be-1, true))
+		add(enc(be+1, true))
+	}
 	return out
+}
+
+// coveredBySubst: writing v over cur changes exactly one byte to a value of the substitution
+// set - that input is already a case of family (2).
+func coveredBySubst(cur, v []byte) bool {
+	at := -1
+	for i := range cur {
+		if cur[i] != v[i] {
+			if at >= 0 {
+				return false
+			}
+			at = i
+		}
+	}
+	return at >= 0 && bytes.IndexByte(substValues(cur[at]), v[at]) >= 0
 }
 
 // visitor is called for every case of the shard in a fixed order with its index; mk builds the
@@ -395,8 +435,22 @@ func (p *plan) each(visit visitor) {
 		base := func(fam string) *testCase {
 			return &testCase{Seed: s.Name, Kind: s.Kind, Family: fam, Changed: true}
 		}
+		// the dense and tree families of a stable seed are dealt to the shards in blocks
+		nth := 0
+		emitShared := func(mk func() *testCase) bool {
+			k := nth
+			nth++
+			if s.Unstable {
+				if !s.Own {
+					return true
+				}
+			} else if (k/blockSize+s.Idx)%p.NShards != p.Shard {
+				return true
+			}
+			return emit(mk)
+		}
 		// control: the undamaged seed
-		if !emit(func() *testCase {
+		if s.Own && !emit(func() *testCase {
 			c := base("seed")
 			c.Input, c.Expect, c.Changed, c.Site, c.Mut = s.Bytes, "seed", false, "seed", mutation{Op: "none"}
 			return c
@@ -404,7 +458,7 @@ func (p *plan) each(visit visitor) {
 			return
 		}
 		// (1) truncations
-		if s.TruncFrom >= 0 {
+		if s.Own && s.TruncFrom >= 0 {
 			for l := s.TruncFrom; l < len(s.Bytes); l++ {
 				l := l
 				if !emit(func() *testCase {
@@ -428,7 +482,7 @@ func (p *plan) each(visit visitor) {
 			for off := 0; off < len(buf); off++ {
 				for _, v := range substValues(s.Bytes[off]) {
 					off, v := off, v
-					if !emit(func() *testCase {
+					if !emitShared(func() *testCase {
 						copy(buf, s.Bytes)
 						buf[off] = v
 						c := base("subst")
@@ -452,7 +506,10 @@ func (p *plan) each(visit visitor) {
 				}
 				for _, v := range fieldValues(s.Bytes[off:off+w], limits) {
 					v := v
-					if !emit(func() *testCase {
+					if coveredBySubst(s.Bytes[off:off+w], v) {
+						continue
+					}
+					if !emitShared(func() *testCase {
 						copy(buf, s.Bytes)
 						copy(buf[off:], v)
 						c := base("field")
@@ -467,7 +524,7 @@ func (p *plan) each(visit visitor) {
 		}
 		// (5) protobuf tree mutations
 		if s.PB {
-			if !pbCases(s, base, emit) {
+			if !pbCases(s, base, emitShared) {
 				return
 			}
 		}
